@@ -114,7 +114,7 @@ static void bufcanon_w(Out &o, mpt::buffer *b)
 	uint32_t fl = b->get_flags();
 	size_t left = size >= used ? size - used : 0;
 	o.s("{t"); o.u(trid(b->_content_traits)); o.s(" f"); o.x(fl & 0xff); if (fl & mpt::BufferShared) o.c('S');
-	o.s(" u"); o.cls(used, 5); o.s(" l"); o.cls(left, 6); o.s(" c"); o.u(std::min((size + 64) / 128, (size_t) 3));
+	o.s(" u"); o.cls(used, 5); if (used > 64) o.c(used > 192 ? 'C' : 'B'); o.s(" l"); o.cls(left, 6); o.s(" c"); o.u(std::min((size + 64) / 128, (size_t) 3));
 	if (used > size) o.s(" OVER");
 	o.c('}');
 }
@@ -254,9 +254,9 @@ static_assert(sizeof(mpt::array) == sizeof(mpt::buffer *), "array layout");
 struct Mdl { const mpt::type_traits *tr; std::vector<uint8_t> b; };
 
 enum RK { C_APPEND, C_INSERT, C_SLICE, C_SET, C_RESERVE, C_REDUCE, C_PRINTF, C_STRING, C_CUT, C_BINSERT, C_BSET, C_CLONE, R_SWAP, S_ASSIGN, S_CLEAR, S_WRITE, S_TAKE, S_CONSUME,
-          X_APPEND, X_INSERT, X_PREPEND, X_SET, X_ASSIGN, X_CLEAR, X_FROMSLICE, X_ADD, X_PRINTF, X_STRING, X_SETVALUE, X_SETREF, XS_FROM, XS_CLEAR, XS_SHIFT, XS_TRIM, XS_WRITE, XS_TAKE };
+          X_APPEND, X_INSERT, X_PREPEND, X_SET, X_ASSIGN, X_CLEAR, X_FROMSLICE, X_ADD, X_PRINTF, X_STRING, X_SETVALUE, X_SETREF, XS_FROM, XS_CLEAR, XS_SHIFT, XS_TRIM, XS_WRITE, XS_TAKE, C_DETACH };
 struct Inst { int k, a, b, c; };
-static const char *Pn[] = { "0", "1", "used-1", "used", "used+2" };
+static const char *Pn[] = { "0", "1", "used-1", "used", "used+2", "used/2" };
 static const char *Ln[] = { "0", "1", "3", "left-1", "left", "left+1" };
 
 static std::vector<Inst> g_tab[2];
@@ -267,9 +267,10 @@ static void build_tables()
 	std::vector<Inst> &c = g_tab[0], &x = g_tab[1];
 	for (int li = 0; li < 6; ++li) c.push_back(Inst{C_APPEND, li, 1, 0});
 	c.push_back(Inst{C_APPEND, 1, 0, 0}); c.push_back(Inst{C_APPEND, 5, 0, 0});
-	for (int pi = 0; pi < 5; ++pi) for (int li = 0; li < 6; ++li) c.push_back(Inst{C_INSERT, pi, li, 0});
-	for (int pi = 0; pi < 5; ++pi) for (int li = 0; li < 6; ++li) c.push_back(Inst{C_SLICE, pi, li, 0});
-	{ int ls[] = {0, 1, 2, 5}; for (int l : ls) for (int oi = 0; oi < 6; ++oi) c.push_back(Inst{C_SET, l, oi, 1}); c.push_back(Inst{C_SET, 2, 0, 0}); c.push_back(Inst{C_SET, 2, 5, 0}); }
+	for (int pi = 0; pi < 6; ++pi) for (int li = 0; li < 6; ++li) c.push_back(Inst{C_INSERT, pi, li, 0});
+	for (int pi = 0; pi < 6; ++pi) for (int li = 0; li < 6; ++li) c.push_back(Inst{C_SLICE, pi, li, 0});
+	for (int di = 0; di < 7; ++di) c.push_back(Inst{C_DETACH, di, 0, 0});
+	{ int ls[] = {0, 1, 2, 5}; for (int l : ls) for (int oi = 0; oi < 7; ++oi) c.push_back(Inst{C_SET, l, oi, 1}); c.push_back(Inst{C_SET, 2, 0, 0}); c.push_back(Inst{C_SET, 2, 5, 0}); }
 	for (int li = 0; li < 5; ++li) for (int t = 0; t < 3; ++t) c.push_back(Inst{C_RESERVE, li, t, (li + t) % 2});
 	c.push_back(Inst{C_REDUCE, 0, 0, 0});
 	for (int t = 0; t < 7; ++t) c.push_back(Inst{C_PRINTF, t, 0, 0});
@@ -321,13 +322,22 @@ struct RawSys {
 		if (init) {
 			uint64_t c = init - 1; int flags = c % 4, tr = (c / 4) % 3, fill = (c / 12) % 2;
 			size_t used = fill ? 63 : 3;
-			if (init > 24) {      // typed content with element size 2, 4, 8: three elements, or one element short of the capacity
+			bool share = false;
+			if (init >= 100) {    // content larger than one allocation unit can hold after a smaller request: used {60,64,65,130,200} x {sole, immutable, shared, shared+immutable} x {raw,'y','n','d'}
+				static const size_t US[5] = { 60, 64, 65, 130, 200 }; static const int KS[4] = { 0, 2, 3, 5 };
+				c = init - 100; int mode = c % 4, ui = (c / 4) % 5; tr = KS[(c / 20) % 4];
+				flags = (mode & 1) ? mpt::BufferImmutable : 0; share = mode & 2;
+				size_t e = trsel(tr) ? trsel(tr)->size : 1; used = US[ui];
+				used = ui == 2 ? (used + e - 1) / e * e : used / e * e;
+			}
+			else if (init > 24) {      // typed content with element size 2, 4, 8: three elements, or one element short of the capacity
 				c = init - 25; flags = 0; tr = 3 + c % 3; fill = (c / 3) % 2;
 				size_t e = trsel(tr)->size; used = fill ? 64 - e : 3 * e;
 			}
 			mpt::buffer *b = LIB(mpt::_mpt_buffer_alloc(used, flags));
 			b->_content_traits = trsel(tr); b->_used = used;
 			h[0].b = b; m[0].tr = trsel(tr); m[0].b.assign(used, 1);
+			if (share) { b->addref(); h[1].b = b; m[1] = m[0]; }
 		}
 		relabel();
 	}
@@ -447,7 +457,7 @@ template <int API> std::string RawSys<API>::opname(int op)
 	case C_APPEND: return fmt("mpt_array_append(a0,%s,%s)", Ln[in.a], in.b ? "data" : "NULL");
 	case C_INSERT: return fmt("mpt_array_insert(a0,%s,%s)", Pn[in.a], Ln[in.b]);
 	case C_SLICE: return fmt("mpt_array_slice(a0,%s,%s)+write", Pn[in.a], Ln[in.b]);
-	case C_SET: { static const char *on[] = { "0", "1", "-1", "-(used+1)", "used", "used+2" }; return fmt("mpt_array_set(a0,'y',%s,%s,%s)", Ln[in.a], in.c ? "data" : "NULL", on[in.b]); }
+	case C_SET: { static const char *on[] = { "0", "1", "-1", "-(n+1)", "n", "n+2", "n/2" }; return fmt("mpt_array_set(a0,type,%s,%s,%s)", Ln[in.a], in.c ? "data" : "NULL", on[in.b]); }
 	case C_RESERVE: { static const char *rn[] = { "0", "used-1", "used", "cap", "cap+1" }; return fmt("mpt_array_reserve(a0,%s,%s)%s", rn[in.a], trname(trsel(in.b)), in.c ? "+buffer_set" : ""); }
 	case C_REDUCE: return "mpt_array_reduce(a0)";
 	case C_PRINTF: case X_PRINTF: { static const char *tn[] = { "0", "5", "left-1", "left", "left+1", "70", "%d" }; return fmt("%s(a0,text:%s)", in.k == C_PRINTF ? "mpt_printf" : "array::printf", tn[in.a]); }
@@ -455,6 +465,7 @@ template <int API> std::string RawSys<API>::opname(int op)
 	case C_CUT: { static const char *cn[] = { "0", "1", "used-off", "used-off+1", "used+1" }; return fmt("mpt_buffer_cut(a0.buf,%s,%s)", Pn[in.a], cn[in.b]); }
 	case C_BINSERT: return fmt("mpt_buffer_insert(a0.buf,%s,%s)", Pn[in.a], Ln[in.b]);
 	case C_BSET: return fmt("mpt_buffer_set(a0.buf,%s,%s,%s)", Pn[in.a], in.c ? "data" : "NULL", Ln[in.b]);
+	case C_DETACH: { static const char *dn[] = { "0", "1 element", "used-1 element", "used", "used+1", "64", "65" }; return fmt("a0.buf->detach(%s)", dn[in.a]); }
 	case C_CLONE: return fmt("mpt_array_clone(a%d,%s)", in.a, in.b == 0 ? fmt("a%d", 1 - in.a).c_str() : (in.b == 1 ? "NULL" : "slice.array"));
 	case R_SWAP: return "swap(a0,a1)";
 	case S_ASSIGN: { static const char *wn[] = { "all", "inner", "empty-at-end", "prefix" }; return fmt("slice=a%d[%s]", in.a, wn[in.b]); }
@@ -487,7 +498,7 @@ static const char *raw_hint(int k)
 	static const char *n[] = { "mpt_array_append", "mpt_array_insert", "mpt_array_slice", "mpt_array_set", "mpt_array_reserve", "mpt_array_reduce", "mpt_printf", "mpt_array_string",
 		"mpt_buffer_cut", "mpt_buffer_insert", "mpt_buffer_set", "mpt_array_clone", "swap", "slice=", "slice=", "mpt_slice_write", "slice=", "slice.off+=",
 		"array::append", "array::insert", "array::prepend", "array::set", "array::operator=", "array::operator=", "array::operator=(slice)", "array::operator+=", "array::printf", "array::string",
-		"array::set(value)", "array::set(reference)", "slice=", "slice=", "slice::shift", "slice::trim", "slice::write", "slice=" };
+		"array::set(value)", "array::set(reference)", "slice=", "slice=", "slice::shift", "slice::trim", "slice::write", "slice=", "buffer::detach" };
 	return n[k];
 }
 template <int API> bool RawSys<API>::apply(int op)
@@ -599,12 +610,12 @@ template <int API> bool RawSys<API>::apply_c(const Inst &in)
 	using namespace mpt;
 	mpt::buffer *b = h[0].b;
 	size_t used = b ? (size_t) b->_used : 0, cap = b ? (size_t) b->_size : 64, left = cap - used;
-	long P[5] = { 0, 1, (long) used - 1, (long) used, (long) used + 2 };
-	long L[6] = { 0, 1, 3, (long) left - 1, (long) left, (long) left + 1 };
 	const size_t E = esize_of(b);
+	long P[6] = { 0, 1, (long) used - 1, (long) used, (long) used + 2, (long) (used / 2 / E * E) };
+	long L[6] = { 0, 1, 3, (long) left - 1, (long) left, (long) left + 1 };
 	if (E > 1) {      // multi-byte elements: mix of element multiples and values that are not
 		long la = (long) (left - left % E);
-		long Pe[5] = { 0, 1, (long) used - (long) E, (long) used, (long) used + 2 }, Le[6] = { 0, 1, (long) E, la - (long) E, la, la + (long) E };
+		long Pe[6] = { 0, 1, (long) used - (long) E, (long) used, (long) used + 2, P[5] }, Le[6] = { 0, 1, (long) E, la - (long) E, la, la + (long) E };
 		memcpy(P, Pe, sizeof P); memcpy(L, Le, sizeof L);
 	}
 	auto aligned = [&](long a, long n) { return E == 1 || (a % (long) E == 0 && n % (long) E == 0); };
@@ -673,7 +684,7 @@ template <int API> bool RawSys<API>::apply_c(const Inst &in)
 		if (in.k == C_SET) {
 			if (!pick(L, in.a, len)) return false;
 			long n = (long) (used / E);
-			long O[6] = { 0, 1, -1, -n - 1, n, n + 2 };
+			long O[7] = { 0, 1, -1, -n - 1, n, n + 2, n / 2 };
 			for (int j = 0; j < in.b; ++j) if (O[j] == O[in.b]) return false;
 			pos = O[in.b]; p = (pos < 0 ? (long) used : 0) + pos * (long) E;
 		} else {
@@ -688,6 +699,7 @@ template <int API> bool RawSys<API>::apply_c(const Inst &in)
 		else fault = guarded([&] { mc::Lib l; rc = mpt_buffer_set(b, b->_content_traits, pos, in.c ? PAT : 0, len); });
 		bool refused = in.k == C_SET ? !ret : rc < 0;
 		if (!fault && p >= 0) typed_stat(p, len, refused);
+		if (!fault && !refused && p >= 0 && used > 64 && (size_t) (p + len) + 64 < used) stat("set:front-of-large-content");
 		if (!fault && !refused && p >= 0) {
 			realloc_seen();
 			if (in.k == C_SET && !ptr_ok(ret, p)) return bad_ptr(p);
@@ -762,6 +774,28 @@ template <int API> bool RawSys<API>::apply_c(const Inst &in)
 		if (!fault && !must) typed_stat(pos, len, rc < 0);
 		if (!fault && rc >= 0 && !must) { if (!len) mb.resize(pos); else mb.erase(mb.begin() + pos, mb.begin() + pos + len); }
 		return check(base, desc, 0, rc < 0, must); }
+	case C_DETACH: {
+		if (!b) return false;
+		long D[7] = { 0, (long) E, (long) used - (long) E, (long) used, (long) used + 1, 64, 65 };
+		if (!pick(D, in.a, len)) return false;
+		const type_traits *old = b->_content_traits;
+		mk("buffer_detach", (size_t) len < used ? ((size_t) len + 64 < used ? "shrink,below-allocation-unit" : "shrink") : ((size_t) len <= cap ? "fits" : "grow")); nontrivial(b);
+		mpt::buffer *ret = 0;
+		fault = guarded([&] { mc::Lib l; ret = b->detach(len); if (ret) h[0].b = ret; });      // the caller owns the result (as in mpt_array_reduce)
+		if (!fault && ret) {
+			realloc_seen();
+			uint32_t fl = ret->get_flags();
+			if (ret->_content_traits != old || ret->_size < (size_t) len || (fl & (BufferShared | BufferImmutable))) { V(base + "wrong-result", desc + ": detached buffer has another content type, is too small, or is still shared / immutable"); return false; }
+			std::vector<uint8_t> got; std::string why;
+			if (!read(0, got, why)) { V(base + "wrong-content", desc + ": " + why); dead = true; return false; }
+			// a request below the used size may cut the content (it does for reallocating detaches, it does not in place): any prefix not shorter than the request
+			bool prefix = got.size() <= mb.size() && std::equal(got.begin(), got.end(), mb.begin()) && got.size() >= std::min(used, (size_t) len);
+			if (!prefix) { V(base + "wrong-content", desc + ": content after detach is not the old content (possibly cut to the requested size): " + diffdesc(got, mb)); return false; }
+			if (got.size() < mb.size()) stat("detach:content-cut(not flagged)");
+			if (used > 64 && (size_t) len + 64 < used) stat("detach:request-more-than-a-unit-below-used");
+			mb = got;
+		}
+		return check(base, desc, 0, !ret); }
 	case C_CLONE: {
 		int d = in.a, s = in.b == 0 ? 1 - d : (in.b == 2 ? 2 : -1);
 		mpt::buffer *db = h[d].b, *sb = s >= 0 ? h[s].b : 0;
@@ -1583,7 +1617,7 @@ static bool deep_init(uint64_t init)
 static int depth_of(Tier t, char fam, uint64_t init)
 {
 	switch (fam) {
-	case 'c': return t == Quick ? 3 : (init <= 4 ? 5 : 4);      // empty system and the four flag combinations (raw, 3 bytes used)
+	case 'c': return t == Quick ? 3 : (init < 100 ? 4 : ((((init - 100) / 4) % 5) % 2 ? 4 : 3));      // large initial buffers: depth 4 for used 64 and 130, 3 for 60, 65, 200
 	case 'x': return t == Quick ? 3 : (deep_init(init) ? 5 : 4);
 	case 't': return t == Quick ? 5 : 6;
 	case 'p': return t == Quick ? 5 : 6;
@@ -1599,6 +1633,12 @@ void mc_jobs(Tier t, std::vector<std::string> &jobs)
 			jobs.push_back(fmt("%s:%d", fam, 1 + fl + 4 * tr + 12 * fill));
 		}
 	}
+	for (int k = 0; k < 80; ++k) {
+		int mode = k % 4, ui = (k / 4) % 5, kind = (k / 20) % 4;
+		// quick: sizes just above one and two allocation units for raw, 1- and 8-byte elements in all four modes, the other sizes for 'y' immutable / shared only
+		if (t == Quick && !(((ui == 2 || ui == 3) && kind != 2) || (kind == 1 && (mode == 1 || mode == 2)))) continue;
+		jobs.push_back(fmt("c:%d", 100 + k));
+	}     // used {60,64,65,130,200} x {sole, immutable, shared, shared+immutable} x {raw,'y','n','d'}
 	for (int k = 0; k < 6; ++k) jobs.push_back(fmt("c:%d", 25 + k));      // element size 2/4/8 x {three elements, one element below capacity}
 	jobs.push_back("t:0"); jobs.push_back("p:0"); jobs.push_back("m:0");
 }
@@ -1609,7 +1649,8 @@ static void required(Run &r, char fam)
 		"buffer_cut:ok", "buffer_cut:refused", "buffer_insert:ok", "buffer_insert:refused", "buffer_set:ok", "buffer_set:refused", "printf:ok", "printf:refused", "slice_write:ok", "slice_write:refused",
 		"reallocated", "target-shared-or-immutable", "slice-consume:ok", "slice-write:consumed-window,sole", "slice-write:consumed-window,shared",
 		"slice-write:compaction,shorter-than-old-data", "slice-write:compaction,longer-than-old-data",
-		"typed-elements:aligned,ok", "typed-elements:aligned,refused", "typed-elements:misaligned,refused", 0 };
+		"typed-elements:aligned,ok", "typed-elements:aligned,refused", "typed-elements:misaligned,refused",
+		"buffer_detach:ok", "buffer_detach:refused", "detach:content-cut(not flagged)", "detach:request-more-than-a-unit-below-used", "set:front-of-large-content", 0 };
 	static const char *x[] = { "array::append:ok", "array::insert:ok", "array::insert:refused", "array::set:ok", "array::operator=:ok", "array::operator=(slice):ok", "array::operator+=:ok", "printf:ok",
 		"slice::shift:ok", "slice::shift:refused", "slice::trim:ok", "slice::trim:refused", "slice_write:ok", "reallocated", "target-shared-or-immutable",
 		"slice-write:consumed-window,sole", "slice-write:consumed-window,shared", "slice-write:compaction,shorter-than-old-data", 0 };
